@@ -611,7 +611,13 @@ func genCase13(c *Chooser) C13Case {
 		if c.Chance(1, 4) {
 			tf = append(tf, flagSpec{"o", "result", true, false})
 		}
-		consumer = ProcSpec{Bin: civ.bin, Argv: renderArgv(c, tf, []string{"p"})}
+		if c.Chance(1, 3) {
+			// the artefact arrives on stdin
+			plan, ewd := genPlan(c)
+			consumer = ProcSpec{Bin: civ.bin, Argv: renderArgv(c, tf, nil), Stdin: &StdinSpec{From: "file:p", Plan: plan, EOFWithData: ewd}}
+		} else {
+			consumer = ProcSpec{Bin: civ.bin, Argv: renderArgv(c, tf, []string{"p"})}
+		}
 	}
 	// faults on the consumer's stdin
 	if consumer.Stdin != nil && c.Chance(1, 5) {
